@@ -9,13 +9,9 @@ use std::time::Duration;
 
 use rt::run::{self, ParentArgs, Plan, Tier, WorkerArgs};
 
-mod plans;
 mod probes;
-
-#[cfg(feature = "std")]
-pub const FLAVOUR: &str = "all";
-#[cfg(not(feature = "std"))]
-pub const FLAVOUR: &str = "nostd";
+use tvlib::plans;
+use tvlib::FLAVOUR;
 
 fn arg(args: &[String], name: &str) -> Option<String> {
     args.iter().position(|a| a == name).and_then(|i| args.get(i + 1).cloned())
